@@ -3,6 +3,7 @@
 package slip
 
 import (
+	"math/big"
 	"strconv"
 )
 
@@ -76,6 +77,51 @@ func (obj HashTable) Equal(other Object) (eq bool) {
 					}
 				}
 			}
+		}
+	}
+	return
+}
+
+// Key returns the key already in the table that is eql to the provided key
+// or the provided key if there is none. Numbers that are Go pointers (bignum,
+// ratio, long-float, signed-byte, and unsigned-byte) are distinct Go map keys
+// even when they are the same type and have the same value so the table is
+// searched for a key of the same type and value.
+func (obj HashTable) Key(key Object) Object {
+	switch key.(type) {
+	case *Bignum, *Ratio, *LongFloat, *SignedByte, *UnsignedByte:
+		if _, has := obj[key]; !has {
+			for k := range obj {
+				if sameNumber(k, key) {
+					return k
+				}
+			}
+		}
+	}
+	return key
+}
+
+func sameNumber(x, y Object) (same bool) {
+	switch tx := x.(type) {
+	case *Bignum:
+		if ty, ok := y.(*Bignum); ok {
+			same = (*big.Int)(tx).Cmp((*big.Int)(ty)) == 0
+		}
+	case *Ratio:
+		if ty, ok := y.(*Ratio); ok {
+			same = (*big.Rat)(tx).Cmp((*big.Rat)(ty)) == 0
+		}
+	case *LongFloat:
+		if ty, ok := y.(*LongFloat); ok {
+			same = (*big.Float)(tx).Cmp((*big.Float)(ty)) == 0
+		}
+	case *SignedByte:
+		if _, ok := y.(*SignedByte); ok {
+			same = tx.Equal(y)
+		}
+	case *UnsignedByte:
+		if _, ok := y.(*UnsignedByte); ok {
+			same = tx.Equal(y)
 		}
 	}
 	return
